@@ -6,6 +6,7 @@ import FractopoModel.Generated.DefaultAzimuthSets
 import FractopoModel.Generated.CalcBins
 import FractopoModel.Spec.Azimuth
 import FractopoModel.Generated.NetworkInit
+import FractopoModel.Generated.LineDataCache
 /-!
 # C15 — azimuths, set membership, rose bins
 
@@ -235,6 +236,23 @@ theorem C15_locs (n : Int) (hn : 0 < n) :
     rfl
 
 example : (containing 30 true ["a", "b"] [(160, 40), (50, 100)]).length ≤ 1 := by decide +kernel
+
+/-! ### the column cache of `LineData` (regenerated from its checked shape) -/
+
+/-- **Sets are assigned from the lines' own azimuths.** With neither an azimuth nor an azimuth-set column in the wrapped frame, the regenerated
+`LineData.azimuth_set_array` is `determine_set` mapped over the azimuths of the lines' own geometry. -/
+theorem C15_linedata_sets (detset : Rat → String) (azimuths : List Rat) (cols : LineCols) (ha : cols.azimuth = none) (hs : cols.azimuth_set = none) :
+    (Gen.ld_azimuth_set_array detset azimuths cols).1 = azimuths.map detset := by
+  unfold Gen.ld_azimuth_set_array Gen.ld_azimuth_array
+  rw [hs, ha]
+
+
+/-- asking twice gives the same answer (the second time from the stored column) -/
+theorem C15_linedata_idempotent (detset : Rat → String) (azimuths : List Rat) (cols : LineCols) :
+    (Gen.ld_azimuth_set_array detset azimuths (Gen.ld_azimuth_set_array detset azimuths cols).2).1 = (Gen.ld_azimuth_set_array detset azimuths cols).1 := by
+  unfold Gen.ld_azimuth_set_array Gen.ld_azimuth_array
+  cases hs : cols.azimuth_set <;> cases ha : cols.azimuth <;> simp [hs]
+
 
 /-- **Set membership is computed per Network.** In the regenerated `Network.__post_init__` the frame into which a Network writes its azimuth and
 azimuth-set columns is a function of the COPY of the caller's frame only; the caller's frame never receives them, so a second Network with other set
